@@ -156,6 +156,8 @@ def gen_cases(ctx):
             # --module patterns - among them ones that are also the name of a directory or file where the run starts
             # (pa, tests): a pattern is a pattern, in the main process and in every layer subprocess
             o["modpat"] = rng.choice([["pa"], ["tests"], ["pb", "pa"], ["^pa\\."], ["!pb"], ["tests", "!pa"], ["."], ["wrt"]])
+            if rng.random() < 0.6:
+                o["processes"] = rng.choice([2, 3])
         elif "pa.tests" in w["modules"] and layout is None and rng.random() < 0.4:
             # a directory under the search path that is also mapped into its package (--package-path): its files are
             # reached twice and loaded once
@@ -274,6 +276,11 @@ def shuffle_modes(ctx, n=None):
                 ts_ = [t for t in w["tests"] if t["layer"] == k and not t.get("doctest")]
                 if ts_:
                     ts_[0]["setUp"]["sleep"] = 0.6 * (len(order_) - rank)
+        if i % 4 == 2 or i % 5 == 3:
+            # levels declared on suites at every depth, selected with --only-level / --at-level: the shuffle keeps every
+            # selected test
+            add_levels(rng, w)
+            wo.update(rng.choice([{"only_level": 2}, {"at_level": 2}, {"only_level": 3}, {"all": True}]))
         if i % 4 == 1:
             # every iteration's failures and errors count and are listed - by the main process and by the layer
             # subprocesses alike (a test that fails in both iterations is named twice)
@@ -295,6 +302,8 @@ def shuffle_modes(ctx, n=None):
             "par": worlds.run_real(w, dict(base, processes=j, **hs("random")), d),
             # the same seed with the unit tests filtered out: the order inside the other layers must not change
             "listf": worlds.run_real(w, dict(base, list=True, non_unit=True), d),
+            # without --shuffle: the same tests per layer (the shuffle permutes, it never drops or adds a test)
+            "list0": worlds.run_real(w, dict({k_: v_ for k_, v_ in base.items() if k_ != "shuffle_seed"}, list=True), d),
         }
         shutil.rmtree(d, ignore_errors=True)
         return res
@@ -324,6 +333,10 @@ def shuffle_modes(ctx, n=None):
         hung = [k_ for k_ in ("list1", "listj", "seq", "par", "listf") if res[k_].timeout]
         if hung:
             bad = "the %s run did not finish within 90 s" % {"seq": "sequential", "par": "-j %d" % j}.get(hung[0], "--list-tests")
+        elif {k: sorted(v) for k, v in cw.listing_groups(w, res["list0"].stdout) if v} != {k: sorted(v) for k, v in l1.items()} \
+                and not res["list0"].timeout:
+            bad = "--list-tests lists %r per layer, with --shuffle %r" % (
+                {k: sorted(v) for k, v in cw.listing_groups(w, res["list0"].stdout) if v}, {k: sorted(v) for k, v in l1.items()})
         elif lf != l1_non_unit:
             bad = "--list-tests -f lists %r, without -f the same layers are listed as %r" % (lf, l1_non_unit)
         elif l1 != lj:
